@@ -108,7 +108,147 @@ type execInfo struct {
 	tapes [][]uint32
 }
 
+// mode is "" (simulated disk, plain build), "simrace" (race build: simulated
+// scheduler with race-invisible gates, real file system) or "freerace" (race
+// build: no simulation at all).
+var mode string
+
+func firstReport(rep string) string {
+	i := strings.Index(rep, "WARNING: DATA RACE")
+	if i < 0 {
+		return rep
+	}
+	rep = rep[i:]
+	if j := strings.Index(rep, "=================="); j > 0 {
+		rep = rep[:j]
+	}
+	l := strings.Split(rep, "\n")
+	if len(l) > 60 {
+		l = l[:60]
+	}
+	return strings.Join(l, "\n")
+}
+
+// raceClass names a report by the two innermost frames of the program under
+// test (stable across runs; harness frames are skipped).
+func raceClass(rep string) string {
+	var fr []string
+	for _, l := range strings.Split(rep, "\n") {
+		l = strings.TrimSpace(l)
+		if strings.HasPrefix(l, "honnef.co/go/tools/") && !strings.Contains(l, "/internal/verif") {
+			f := l
+			if k := strings.Index(f, "("); k > 0 {
+				f = f[:k]
+			}
+			f = strings.TrimPrefix(f, "honnef.co/go/tools/")
+			dup := false
+			for _, x := range fr {
+				if x == f {
+					dup = true
+				}
+			}
+			if !dup {
+				fr = append(fr, f)
+			}
+			if len(fr) == 2 {
+				break
+			}
+		}
+	}
+	return "data-race:" + strings.Join(fr, "+")
+}
+
+func executeRace(c Case) batch.Result {
+	dir := modDir(&c.Mod)
+	defer batch.LockModDir(dir)()
+	if err := c.Mod.Write(dir); err != nil {
+		return batch.Result{Infra: "writing module: " + err.Error()}
+	}
+	defer os.RemoveAll(dir)
+	verifhook.State = c.Mod.Digest()
+	defer verifhook.Forget()
+	res := batch.Result{Counters: map[string]int{}}
+	fail := func(class, f string, a ...any) {
+		if res.Violation == nil {
+			res.Violation = &batch.Violation{Class: class, Detail: fmt.Sprintf(f, a...)}
+		}
+	}
+	inv := simlint.Inv{Args: c.args(dir, nil), Dir: dir, Env: c.Env}
+	cacheDir := func() string {
+		d, _ := os.MkdirTemp(batch.Scratch, "verif-racecache")
+		return d
+	}
+	batch.RaceReports() // drop anything reported before this case
+	var ref simlint.Out
+	cd := cacheDir()
+	if mode == "simrace" {
+		var vr verifsim.Result
+		ref, vr = simlint.RunOneRealFS(verifsim.Config{Strategy: verifsim.StratFIFO, Procs: 1, RaceGates: true, StepBound: 3_000_000}, cd, inv)
+		if cl, d := simlint.Problems(vr); cl != "" {
+			fail(cl, "reference run: %s", d)
+		}
+	} else {
+		ref = simlint.RunFree(cd, inv, 1)
+	}
+	os.RemoveAll(cd)
+	if ref.Exit > 1 {
+		return batch.Result{Infra: fmt.Sprintf("reference run failed: exit %d: %s", ref.Exit, ref.Stderr)}
+	}
+	var digests []uint64
+	n := 0
+	for i := range c.Scheds {
+		s := &c.Scheds[i]
+		if s.Patterns != nil {
+			continue
+		}
+		if n >= 6 || res.Violation != nil {
+			break
+		}
+		n++
+		cd := cacheDir()
+		var out simlint.Out
+		what := fmt.Sprintf("schedule #%d (strategy %s, %d workers, seed %d)", i, verifsim.Strategy(s.Strategy), s.Procs, s.Seed)
+		if mode == "simrace" {
+			cfg := simCfg(s)
+			cfg.RaceGates = true
+			var vr verifsim.Result
+			out, vr = simlint.RunOneRealFS(cfg, cd, inv)
+			res.Steps += vr.Steps
+			res.Decisions += vr.Decisions
+			digests = append(digests, vr.Digest^h64(strings.ReplaceAll(out.Stdout, dir, "$DIR")))
+			if cl, d := simlint.Problems(vr); cl != "" {
+				fail(cl, "%s: %s", what, d)
+			}
+		} else {
+			what = fmt.Sprintf("free run #%d (GOMAXPROCS %d)", i, s.Procs)
+			out = simlint.RunFree(cd, inv, s.Procs)
+			digests = append(digests, h64(fmt.Sprint(i, s.Procs, strings.ReplaceAll(out.Stdout, dir, "$DIR"))))
+		}
+		os.RemoveAll(cd)
+		res.Counters["procs:"+fmt.Sprint(s.Procs)]++
+		if !out.Same(ref) {
+			fail("output-differs-from-reference", "%s printed something else than the reference run:\n%s\nstderr: %s", what, strings.ReplaceAll(simlint.Diff(ref, out), dir, "$DIR"), out.Stderr)
+		}
+		if rep := batch.RaceReports(); rep != "" {
+			res.Counters["race_reports"] += strings.Count(rep, "WARNING: DATA RACE")
+			fr := firstReport(rep)
+			fail(raceClass(fr), "%s: the race detector reported:\n%s", what, fr)
+		}
+	}
+	res.Evals = n + 1
+	res.Digests = digests
+	for _, d := range digests {
+		res.Digest = res.Digest*1099511628211 ^ d
+	}
+	res.Trivial = ref.Stdout == ""
+	res.Sample = map[string]any{"mode": mode, "module": fmt.Sprintf("%d packages", len(c.Mod.Pkgs)), "flags": c.Flags, "runs": n + 1}
+	return res
+}
+
 func execute(c Case, info *execInfo) batch.Result {
+	if mode != "" {
+		return executeRace(c)
+	}
 	dir := modDir(&c.Mod)
 	defer batch.LockModDir(dir)()
 	if err := c.Mod.Write(dir); err != nil {
@@ -220,7 +360,12 @@ func imports(m *genmod.Mod) [][]int {
 
 type engine struct{}
 
-func (engine) Name() string     { return "runsim" }
+func (engine) Name() string {
+	if mode != "" {
+		return "runsim-" + mode
+	}
+	return "runsim"
+}
 func (engine) Property() string { return "C06" }
 
 var procChoices = []int{1, 2, 3, 4, 8, 16}
@@ -237,6 +382,12 @@ func (engine) Generate(seed uint64, index int, tier string) json.RawMessage {
 		nsched = 80
 	}
 	tests := r.P(300)
+	if mode != "" {
+		// race tiers use the real file system and have no std base layer:
+		// a module with tests would re-analyse the standard library under the
+		// race detector in every run (tens of seconds)
+		tests = false
+	}
 	m := genmod.Generate(&r, npkg, genmod.Shapes[r.N(len(genmod.Shapes))], tests)
 	c := Case{Mod: *m, Tests: tests}
 	c.Flags = []string{"-checks", []string{"all", "inherit", "all,-ST1000", "SA*,U1000"}[r.N(4)], fmt.Sprintf("-tests=%v", tests)}
@@ -455,4 +606,19 @@ func (engine) Describe() batch.Description {
 	}
 }
 
-func main() { batch.Main(engine{}) }
+func main() {
+	var rest []string
+	for _, a := range os.Args[1:] {
+		if strings.HasPrefix(a, "-family=") {
+			mode = a[len("-family="):]
+			batch.ExtraWorkerArgs = append(batch.ExtraWorkerArgs, a)
+		} else {
+			rest = append(rest, a)
+		}
+	}
+	os.Args = append(os.Args[:1], rest...)
+	if mode != "" {
+		batch.WorkerEnv = batch.RaceEnv
+	}
+	batch.Main(engine{})
+}
